@@ -3,5 +3,6 @@ CONSTANTS MaxOps = 24
 Widths = {1, 2, 127, 128, 130}
 Bursts = {3, 127, 129, 300}
 Fam = {"stack", "frame", "global", "closure", "clone"}
+Deep = FALSE
 INVARIANT FramesDistinct
 CHECK_DEADLOCK FALSE
